@@ -456,7 +456,10 @@ Definition run_core (p : prog) (fuel : nat) (s : st) : st * bool :=
   | None =>
       let '(s1, f1) := run_user (run_method (p_setup p) (p_up_setup p) s) in
       if f1 then
-        let '(s2, _, oof) := run_cleanups fuel s1 in (s2, oof)
+        (* the test method is not run; an expectation that failed in setUp or in one of the
+           cleanups still fails the test (fix F21) *)
+        let '(s2, _, oof) := run_cleanups fuel s1 in
+        (if force s2 then got_exception (Exc CFail None) s2 else s2, oof)
       else
         let '(s2, f2) := run_user (run_test_method p s1) in
         let '(s3, f3) := run_user (run_method (p_teardown p) (p_up_teardown p) s2) in
